@@ -646,6 +646,86 @@ fn print_line(rng: &mut Rng) -> Vec<Stmt> {
     vec![Stmt::Print { q: false, items }]
 }
 
+/// A program that chains to a file with `RUN "B"` while the cursor is mid-line: the chained program's
+/// first print items (POS, TAB, ',') must see the true column, exactly as if the pending output had
+/// been printed by the chained program itself.
+#[derive(Clone)]
+struct C11ChainCase {
+    pending: String,
+    first_line: String,
+    load_only: bool,
+    sched_variant: usize,
+    entropy: u64,
+}
+
+impl Case for C11ChainCase {
+    fn execute(&self) -> Verdict {
+        let mut v = Verdict::default();
+        let b = vec![format!("10 {}", self.first_line), "20 PRINT \"|\";POS(0)".to_string()];
+        let mut w = World::booted(sched_of(self.sched_variant, self.entropy), self.entropy, false);
+        w.disk.insert("B".into(), b.clone());
+        w.line(&format!("10 PRINT \"{}\";:RUN \"B\"", self.pending), &LineIo::budget(200));
+        let o = w.line("RUN", &LineIo::budget(5000));
+        let t1 = tokens(&w.events[o.ev_start..o.ev_end]);
+        // twin: the pending output printed by the chained program itself
+        let mut f = World::booted(Sched::fixed(DEFAULT_Q), self.entropy, false);
+        f.line(&format!("5 PRINT \"{}\";", self.pending), &LineIo::budget(200));
+        for l in &b {
+            f.line(l, &LineIo::budget(200));
+        }
+        let o2 = f.line("RUN", &LineIo::budget(5000));
+        let t2 = tokens(&f.events[o2.ev_start..o2.ev_end]);
+        let strip = |t: Vec<Tok>| -> Vec<Tok> { t.into_iter().filter(|x| !matches!(x, Tok::Other(_))).collect() };
+        let mut merged1: Vec<Tok> = vec![];
+        merge_tokens(&mut merged1, strip(t1));
+        let mut merged2: Vec<Tok> = vec![];
+        merge_tokens(&mut merged2, strip(t2));
+        let mut fail: Option<Violation> = None;
+        w.stats.bump("c11.chained_run_mid_line");
+        if merged1 != merged2 && w.fatal.is_none() && f.fatal.is_none() {
+            fail = Some(Violation {
+                key: "C11:chained-run:column".into(),
+                detail: format!(
+                    "`10 PRINT \"{}\";:RUN \"B\"` with B = {:?}: {} (the same output printed by one program is 'expected')",
+                    self.pending,
+                    b,
+                    first_diff(&merged2, &merged1)
+                ),
+            });
+        }
+        let _ = self.load_only;
+        if let Some(ft) = w.fatal.as_ref().or(f.fatal.as_ref()) {
+            fail = Some(fatal_violation("C11", ft));
+        }
+        v.violation = fail;
+        v.stats.merge(&w.stats);
+        v.instr = w.total_instr + f.total_instr;
+        v.sim_us = w.sim_us;
+        v.executions = 2;
+        v.fingerprint = w.log_hash;
+        v.nontrivial = true;
+        v
+    }
+    fn shrink(&self) -> Vec<Box<dyn Case>> {
+        let mut out: Vec<Box<dyn Case>> = vec![];
+        if self.sched_variant != 1 {
+            out.push(Box::new(C11ChainCase {
+                sched_variant: 1,
+                ..self.clone()
+            }));
+        }
+        out
+    }
+    fn describe(&self) -> Json {
+        obj()
+            .set("kind", "C11 chained RUN \"file\" with the cursor mid-line vs the same output from one program")
+            .set("program", format!("10 PRINT \"{}\";:RUN \"B\"", self.pending))
+            .set("file_B", vec![format!("10 {}", self.first_line), "20 PRINT \"|\";POS(0)".to_string()])
+            .set("quantum_schedule_variant", self.sched_variant)
+            .build()
+    }
+}
+
 impl Property for C11 {
     fn id(&self) -> &'static str {
         "C11"
@@ -654,6 +734,8 @@ impl Property for C11 {
         let mut cfg = GenCfg::swarm(rng);
         cfg.emph = Emph::Print;
         cfg.layout = true;
+        // keyboard polls between print items (answered with no key) must not move the column
+        cfg.inkey = rng.pct(40);
         cfg.strings = true;
         cfg.doubles = rng.pct(50);
         cfg.input = rng.pct(40);
@@ -666,6 +748,26 @@ impl Property for C11 {
         if cfg.tron {
             cfg.stop = false;
             cfg.end_mid = false;
+        }
+        if rng.below(120) == 0 {
+            let first_line = rng
+                .pick(&[
+                    "PRINT POS(0);TAB(10);\"X\",1",
+                    "PRINT ,\"Z\"",
+                    "PRINT TAB(5);\"T\";POS(0)",
+                    "PRINT 1,2,3",
+                    "PRINT SPC(2);POS(0),\"é\";POS(0)",
+                    "PRINT TAB(-14);\"N\"",
+                    "PRINT",
+                ])
+                .to_string();
+            return Box::new(C11ChainCase {
+                pending: rng.pick(&["ABC", "é日本", "0123456789ABCD", "x", "0123456789ABC", "0123456789ABCDE", ""]).to_string(),
+                first_line,
+                load_only: false,
+                sched_variant: rng.usize(7),
+                entropy: rng.next_u64(),
+            });
         }
         if rng.below(200) == 0 {
             // Ctrl-C at every instruction of a PRINT-heavy program, most of them with the cursor
